@@ -116,6 +116,9 @@ struct Wr {
     ver: Option<u8>,
     /// x: 1 = the request goes to a path that is not routed (servers)
     xr: bool,
+    /// s: 1 = a follow-up call that is issued while the peer is STILL stalled (right after the first wave was
+    /// abandoned) and is itself abandoned a moment later (async / WebSocket client)
+    st: bool,
 }
 
 impl Wr {
@@ -137,6 +140,7 @@ impl Wr {
         add('t', self.tv as u64, self.tv > 0);
         add('v', self.ver.unwrap_or(0) as u64, self.ver.is_some());
         add('x', 1, self.xr);
+        add('s', 1, self.st);
         t
     }
     fn parse(t: &str) -> Option<Wr> {
@@ -171,6 +175,7 @@ impl Wr {
                 't' => w.tv = u8::try_from(v).ok()?,
                 'v' => w.ver = Some(u8::try_from(v).ok()?),
                 'x' => w.xr = v == 1,
+                's' => w.st = v == 1,
                 _ => return None,
             }
         }
@@ -1133,6 +1138,16 @@ fn run_async_client(sc: &Script) -> Result<Capture, String> {
                 let _ = tokio::time::timeout(WATCHDOG, h).await;
             }
             handles = keep;
+            // further calls while the peer is still not reading, each given up on after a moment
+            for &tag in later.iter().filter(|t| sc.ws[**t].st) {
+                let (c2, w2) = (client.clone(), sc.ws[tag].clone());
+                let h = tokio::spawn(async move {
+                    let _ = c2.send(tag, &w2, ct).await;
+                });
+                tokio::time::sleep(Duration::from_millis(40)).await;
+                h.abort();
+                let _ = tokio::time::timeout(WATCHDOG, h).await;
+            }
         }
         g.open();
         for (_, h) in handles {
@@ -1147,6 +1162,9 @@ fn run_async_client(sc: &Script) -> Result<Capture, String> {
             .collect();
         let mut batch_sent = false;
         for &tag in &later {
+            if sc.ws[tag].st && matches!(sc.fault, Fault::Cancel(_)) {
+                continue; // already issued (and abandoned) while the peer was stalled
+            }
             let ok = if sc.ws[tag].kind == 'b' {
                 if batch_sent {
                     continue;
@@ -1854,7 +1872,7 @@ fn spice(r: &mut Rng, sc: &mut Script) {
             set(r, "via", &[1], 1, 3);
             set(r, "conns", &[2], 1, 2);
             set(r, "off", &[0, 1, 2], 1, 3);
-            set(r, "lim", &[9000, 70000, 1 << 20], 1, 5);
+            set(r, "lim", &[48, 49, 64, 100, 128, 165, 170, 180, 256, 9000, 70000, 1 << 20], 1, 4);
         }
         _ => {}
     }
@@ -1947,6 +1965,26 @@ fn gen_scripts(r: &mut Rng, thorough: bool) -> Vec<Script> {
                 }
                 let (fault, stall_ms) = if ep == 0 { (Fault::WTimeout(30), 100) } else { (Fault::Cancel(-1), 40) };
                 push(&mut v, Script { idx: String::new(), ep, buf: small, rt: 2, chunk: 65536, stall_at: 0, stall_ms, fault, opt: Default::default(), ws });
+            }
+        }
+        if ep == 1 || ep == 2 {
+            // the socket fills on small notifies, one caller gives up in its flush; a 64 KiB call made while the
+            // peer is still stalled is given up on as well (its header never left the write buffer); the peer
+            // resumes; further requests
+            let w0 = |kind: char, size: usize| Wr { kind, size, ..Default::default() };
+            for big in [65536usize, 9000] {
+                let ws = vec![w0('n', 5000), w0('n', 5000), w0('n', 5000), w0('n', 4000), Wr { st: true, ..w0('T', big) }, Wr { st: true, ..w0('t', 100) }, w0('t', 300), w0('J', 700), w0('t', 20000)];
+                push(&mut v, Script { idx: String::new(), ep, buf: small, rt: 1, chunk: 65536, stall_at: 0, stall_ms: 40, fault: Fault::Cancel(-1), opt: Default::default(), ws });
+            }
+        }
+        if ep == 5 {
+            // assumed peer limits around and below the size of the server's own replacement error frame
+            let w0 = |kind: char, size: usize| Wr { kind, size, ..Default::default() };
+            for lim in [*r.pick(&[48u64, 49, 64]), *r.pick(&[100u64, 128, 150]), 160 + r.below(21), *r.pick(&[256u64, 200, 512])] {
+                let ws = vec![w0('r', 8192), w0('r', 100), w0('p', 300), w0('r', 10), w0('B', 50), w0('o', 2000), w0('r', 0), w0('p', 0), w0('r', 70000), w0('r', 30)];
+                let mut opt = std::collections::BTreeMap::new();
+                opt.insert("lim".to_string(), lim);
+                push(&mut v, Script { idx: String::new(), ep, buf: 65536, rt: 2, chunk: 65536, stall_at: 0, stall_ms: 0, fault: Fault::None, opt, ws });
             }
         }
         if ep == 1 {
